@@ -214,7 +214,7 @@ def check_cagrad(ctx: Ctx, J, dtype):
     rng = ctx.rng
     m = len(J)
     Jt = to_tensor(J, dtype)
-    c = rng.choice([0.0, 0.0, 0.3, 0.5, 1.0, 2.0])
+    c = rng.choice([0.0, 0.0, 0.3, 0.5, 1.0, 2.0, 8.0, 40.0, 1e4])
     A = CAGrad(c=c)
     st, x = run_agg(A, Jt)
     rp = {"aggregator": "CAGrad", "c": c, "J": [[str(v) for v in r] for r in J], "dtype": str(dtype)}
@@ -231,7 +231,13 @@ def check_cagrad(ctx: Ctx, J, dtype):
     rel = Fr(1, 10 ** 5) if dtype == torch.float64 else Fr(1, 10 ** 2)
     if all(v == 0 for v in xs):
         ctx.count("cagrad_zero_output")
-        return                      # stationarity branch (|g_w| < norm_eps)
+        # stationarity branch (|g_w| < norm_eps in units of s) — legitimate only AT stationarity: g_w is a convex combination of
+        # the rows, so |g_w|² >= min-norm² of the hull; when that is >= (2 norm_eps s)² the zero vector is not an answer
+        mu0 = fr_list([ask_agg(ctx.driver, "minnorm", J)[2]])[0]
+        if mu0 >= 4 * Fr(1, 10 ** 8) * top_singular_sq(J) and (c > 0 or n0 > 0) and float(top_singular_sq(J)) >= 1e-6:
+            ctx.violation(f"CAGrad(c={c}) returned the zero vector although the hull of the rows stays at distance "
+                          f"{float(mu0) ** 0.5:.3e} >= 2 norm_eps s from the origin (not stationary): |A(J) - g0| must be c|g0|", rp)
+        return
     # near stationarity (0 almost in the hull) |g_w| is computed from the square roots of the eigenvalues of a
     # float Gramian and carries an ABSOLUTE error ~ sqrt(u)·s: the identity is then ill-conditioned (margin rule)
     mu = fr_list([ask_agg(ctx.driver, "minnorm", J)[2]])[0]
